@@ -3,6 +3,7 @@
 package kcache
 
 import (
+	"context"
 	logutil "github.com/boz/go-logutil"
 	"github.com/boz/kcache/filter"
 	"github.com/boz/kcache/zzverif"
@@ -186,3 +187,7 @@ func vCheckInv(c *_cache, label string) {
 		zzverif.Assert(c.filter.Accept(o), label+"/accepted")
 	}
 }
+
+// vDefaultLog / vLogFromCtx replace go-logutil's Default / FromContextOrDefault.
+func vDefaultLog() logutil.Log                     { return vLog{} }
+func vLogFromCtx(ctx context.Context) logutil.Log { return vLog{} }
